@@ -29,8 +29,6 @@ inductive JavaLocKind where
   | plain (text : Str)
   deriving Repr, DecidableEq, Inhabited
 
-def intStr (i : Int) : Str := if i < 0 then 45 :: dec i.natAbs else dec i.natAbs
-
 def stubMarker : Str := asc "generated stub/JIT"
 
 def JavaLocKind.print : JavaLocKind → Str
@@ -187,7 +185,7 @@ def javaHeapRate : Nat := 524288
 
 def javaSample (scale : ScaleFn) (heap : Bool) (period : Int) (first second : Nat) (addrs : List Nat) : RawSample :=
   if heap then
-    let v := unsample scale true javaHeapRate second first
+    let v := unsample scale true javaHeapRate (second : Int) (first : Int)
     { addrs := addrs, values := [v.1, v.2], numLabel := [(asc "bytes", [((first / second : Nat) : Int)])] }
   else
     { addrs := addrs,
